@@ -25,7 +25,7 @@ def corpus(tier, rng):
     q = tier == "quick"
     specs = [dict(sp, hw=True, family=sp["family"] + "-metrics") for sp in families.accel_specs(stripped=False, names=["sigma", "extensor", "outerspace", "gamma"])]
     specs += families.accel_specs(stripped=True, names=["demo"])
-    specs += sample(hwfamily.gen_hw, rng, 2 if q else 20)
+    specs += sample(hwfamily.gen_hw, rng, 2 if q else 20) + hwfamily.flatten_core()
     specs += sample(families.gen_occ, rng, 2 if q else 20) + sample(families.gen_shape, rng, 1 if q else 20) + sample(families.gen_flat, rng, 1 if q else 15)
     specs += sample(families.gen_cascade, rng, 1 if q else 15) + sample(families.gen_flat3, rng, 3 if q else 12)
     return specs
